@@ -42,4 +42,86 @@ Proof.
   apply in_map_iff in Hcs. destruct Hcs as ([[nm bytes] i] & Heq & Hnum). cbn [fst snd] in Heq. inversion Heq; subst. clear Heq.
   apply in_number in Hnum. destruct Hnum as [_ E]. rewrite N.sub_0_r in E. exists nm, bytes. split; [exact E|]. rewrite map_map in M. exact M.
 Qed.
-Print Assumptions found_file_carries_the_literals.
+
+(* ---------- the converse: a disk file whose components carry the literals IS a path of the tree ---------- *)
+(* well-formed file lists: one file per component list, and no file's name continues another file's name (a name is a file or a directory, not both) *)
+Definition files_wf (files:list (list (list N) * N)) : Prop :=
+  (forall cs i j, In (cs, i) files -> In (cs, j) files -> i = j) /\ (forall cs ds i j, In (cs, i) files -> In (cs ++ ds, j) files -> ds = []).
+Definition under (nm:list N) (files:list (list (list N) * N)) :=
+  flat_map (fun x : list (list N) * N => match fst x with c :: r => if name_eqb c nm then [(r, snd x)] else [] | [] => [] end) files.
+Lemma name_eqb_refl a : name_eqb a a = true. Proof. unfold name_eqb. destruct (list_eq_dec N.eq_dec a a); [reflexivity|contradiction]. Qed.
+Lemma name_eqb_neq a b : a <> b -> name_eqb a b = false. Proof. unfold name_eqb. destruct (list_eq_dec N.eq_dec a b); [contradiction|reflexivity]. Qed.
+Lemma under_in files nm r i : In (nm :: r, i) files -> In (r, i) (under nm files).
+Proof. intros H. unfold under. apply in_flat_map. exists (nm :: r, i). split; auto. cbn [fst snd]. rewrite name_eqb_refl. left; reflexivity. Qed.
+Lemma wf_under files nm : files_wf files -> files_wf (under nm files).
+Proof.
+  intros [U P]. split.
+  - intros cs i j Hi Hj. apply in_under in Hi. apply in_under in Hj. eapply U; eauto.
+  - intros cs ds i j Hi Hj. apply in_under in Hi. apply in_under in Hj. eapply (P (nm :: cs) ds); eauto.
+Qed.
+Lemma in_dedup x : forall l, In x l -> In x (dedup l).
+Proof.
+  induction l as [|a l IH]; intros H; [contradiction|]. cbn [dedup]. destruct (list_eq_dec N.eq_dec a x) as [E|E]; [left; exact E|right].
+  apply filter_In. split. apply IH. destruct H as [H|H]; [contradiction|exact H]. rewrite name_eqb_neq by exact E. reflexivity.
+Qed.
+Lemma find_first {A} (f:A -> bool) l y : In y l -> f y = true -> exists x, find f l = Some x /\ In x l /\ f x = true.
+Proof.
+  induction l as [|a l IH]; intros H Fy; [contradiction|]. cbn [find]. destruct (f a) eqn:Fa; [exists a; repeat split; auto; left; reflexivity|].
+  destruct H as [H|H]; [subst; congruence|]. destruct (IH H Fy) as (x & E & I & Fx). exists x. repeat split; auto. right; exact I.
+Qed.
+Lemma build_complete : forall fuel files cs i lits, files_wf files -> In (cs, i) files -> cs <> [] -> (length cs <= fuel)%nat ->
+  map (fun c => name_lit (norm_name c)) cs = map Some lits -> In (map norm_name cs, i) (all_paths lits (build fuel files)).
+Proof.
+  induction fuel as [|f IH]; intros files cs i lits WF Hin NE L M.
+  - destruct cs; [contradiction|cbn in L; lia].
+  - destruct cs as [|c r]; [contradiction|]. destruct lits as [|l sub]; [discriminate|]. cbn [map] in M. inversion M as [[Ml Ms]]. clear M.
+    cbn [build all_paths]. fold (under c files).
+    apply in_flat_map. eexists (norm_name c, _). split.
+    + apply in_map_iff. exists c. split; [reflexivity|]. apply in_dedup. apply in_flat_map. exists (c :: r, i). split; auto. left; reflexivity.
+    + cbn [fst snd]. unfold lit_eqb. rewrite Ml, Z.eqb_refl. apply in_map_iff.
+      exists (map norm_name r, i). split; [reflexivity|].
+      destruct r as [|c2 r2].
+      * destruct sub; [|discriminate]. cbn [map].
+        destruct (find_first (fun x : list (list N) * N => match fst x with [] => true | _ :: _ => false end) (under c files) ([], i) (under_in files c [] i Hin) eq_refl) as (x & F & Ix & Px).
+        fold (under c files). rewrite F. destruct x as [rx ix]. cbn [fst snd] in *. destruct rx; [|discriminate].
+        apply in_under in Ix. destruct WF as [U _]. rewrite (U [c] ix i Ix Hin). cbn [all_paths]. left; reflexivity.
+      * fold (under c files).
+        destruct (find (fun x : list (list N) * N => match fst x with [] => true | _ :: _ => false end) (under c files)) as [x|] eqn:F.
+        -- exfalso. apply find_some in F. destruct F as [Ix Px]. destruct x as [rx ix]. cbn [fst] in Px. destruct rx; [|discriminate].
+           apply in_under in Ix. destruct WF as [_ P]. specialize (P [c] (c2 :: r2) ix i Ix Hin). discriminate.
+        -- apply IH; auto. apply wf_under; exact WF. apply under_in; exact Hin. discriminate. cbn [length] in *. lia.
+Qed.
+Lemma number_in {A} (l:list A) : forall n k x, nth_error l n = Some x -> In (x, (k + N.of_nat n)%N) (number l k).
+Proof.
+  induction l as [|a l IH]; intros n k x H; destruct n; cbn [nth_error] in H; try discriminate.
+  - inversion H; subst. cbn [number]. left. f_equal. lia.
+  - cbn [number]. right. replace (k + N.of_nat (S n))%N with ((k + 1) + N.of_nat n)%N by lia. apply IH; exact H.
+Qed.
+Lemma split_on_nonempty sep l cur : split_on sep l cur <> [].
+Proof. revert cur. induction l as [|c r IH]; intros cur; cbn [split_on]; [discriminate|]. destruct (N.eqb c sep); [discriminate|apply IH]. Qed.
+Lemma le_fold_max (l:list nat) x : In x l -> (x <= fold_right Nat.max 0%nat l)%nat.
+Proof. induction l as [|a l IH]; intros H; [contradiction|]. cbn [fold_right]. destruct H as [H|H]; [subst; lia|specialize (IH H); lia]. Qed.
+Definition disk_files (disk:list (list N * list N)) := map (fun x : (list N * list N) * N => (comps (fst (fst x)), snd x)) (number disk 0%N).
+(* on a well-formed disk, EVERY file whose name components (normalised like directory entries) read as the requested literals is a path of the
+   tree the evaluator searches - so "not found" means that no file of the disk matches, and a matching file is found or reported ambiguous *)
+Theorem matching_file_is_a_path disk lits n nm bytes : files_wf (disk_files disk) -> nth_error disk n = Some (nm, bytes) ->
+  map (fun c => name_lit (norm_name c)) (comps nm) = map Some lits -> In (map norm_name (comps nm), N.of_nat n) (all_paths lits (tree_of_disk disk)).
+Proof.
+  intros WF Hn M. unfold tree_of_disk. fold (disk_files disk).
+  assert (Hin : In (comps nm, N.of_nat n) (disk_files disk)).
+  { unfold disk_files. apply in_map_iff. exists ((nm, bytes), N.of_nat n). split; [reflexivity|]. apply (number_in disk n 0%N (nm, bytes) Hn). }
+  apply build_complete; auto. apply split_on_nonempty.
+  apply le_S. apply le_fold_max. apply in_map_iff. exists (comps nm, N.of_nat n). split; [reflexivity|exact Hin].
+Qed.
+Corollary not_found_means_no_match disk lits : files_wf (disk_files disk) -> search lits (tree_of_disk disk) = NotFound ->
+  forall n nm bytes, nth_error disk n = Some (nm, bytes) -> map (fun c => name_lit (norm_name c)) (comps nm) <> map Some lits.
+Proof. intros WF S n nm bytes Hn M. apply not_found_iff in S. pose proof (matching_file_is_a_path disk lits n nm bytes WF Hn M) as H. rewrite S in H. exact H. Qed.
+(* the premises hold somewhere: the one-file disk "ㄴ/ㄷ.t" is well formed and its file matches the literals 1, 2 *)
+Example wf_holds_somewhere : let disk := [([12596; 47; 12599; 46; 116]%N, [227; 132; 183]%N)] in
+  files_wf (disk_files disk) /\ map (fun c => name_lit (norm_name c)) (comps [12596; 47; 12599; 46; 116]%N) = map Some [1; 2]%Z.
+Proof.
+  cbv zeta. split; [split|vm_compute; reflexivity].
+  - intros cs i j [Hi|[]] [Hj|[]]. congruence.
+  - intros cs ds i j [Hi|[]] [Hj|[]]. inversion Hi as [[Ec Ei]]. inversion Hj as [[E Ej]]. rewrite <- Ec in E. apply (f_equal (@length _)) in E. rewrite app_length in E. destruct ds; [reflexivity|cbn [length] in E; lia].
+Qed.
+Print Assumptions found_file_carries_the_literals. Print Assumptions matching_file_is_a_path. Print Assumptions not_found_means_no_match.
